@@ -913,7 +913,7 @@ func (doc *Document) persistModifiedRevisionBodies(ctx context.Context, datastor
 		// If addRaw indicates that the doc already exists, can ignore.  Another writer already persisted this rev backup.
 		addErr := doc.persistRevisionBody(ctx, datastore, revInfo.BodyKey, revInfo.Body)
 		if addErr != nil {
-			return err
+			return addErr
 		}
 	}
 
